@@ -20,7 +20,7 @@ func checkC13(c *Ctx) {
 	c.Rule("C13.3", "delta provenance: delta = Ticks(bpm, (t - prev) ms), prev' = t when stored, prev unchanged when dropped", 1)
 	c.Rule("C13.6", "delta conversion formula: Ticks(bpm, d) = Round(d[ns] * resolution * bpm / 6e10) computed in floating point from the full nanosecond value (no integer narrowing of the duration or of intermediate products)", 1)
 	c.Rule("C13.4", "unchanged, in order: the stored bytes are the callback's message, one append per delivered channel message", 1)
-	c.Rule("C13.5", "close and add: the file-level stop function stops listening, closes the track and adds it to the file", 1)
+	c.Rule("C13.5", "close and add: the file-level stop function stops listening, closes the track and adds it to the file; the record-to-file wrapper finishes the recording before it writes the file and reports the write error", 2)
 
 	c.Rule("C13.7", "the recorded track is written as a valid file: per-event encoder table and running-status protocol of the writer (= C01.1, C01.2), deltas stored unchanged by Track.Add (= C01.7)", 10)
 	c.include(checkC01, map[string]string{"C01.1": "C13.7", "C01.2": "C13.7", "C01.7": "C13.7"})
@@ -273,4 +273,42 @@ func checkC13(c *Ctx) {
 		}
 	}
 	c.Check(ok5, "C13.5", "file-level stop: stop listening, close, add", "-", "stop -> Close -> Add on every path of the returned stop function", why5)
+	// the convenience wrapper that records straight into a file: its stop function finishes the recording (inner stop)
+	// BEFORE the file is written, and reports the write's error
+	if rt := p.Func("smf", "RecordTo"); rt == nil {
+		c.Unk("C13.5", "smf.RecordTo", "-", "not found")
+	} else {
+		c.Fn(FuncName(rt))
+		wf := p.Method("smf", "SMF", "WriteFile")
+		okW, whyW := false, "RecordTo returns no stop function that writes the file"
+		for _, af := range rt.AnonFuncs {
+			var stopC, writeC ssa.CallInstruction
+			for _, call := range calls(af) {
+				switch call.Common().StaticCallee() {
+				case wf:
+					writeC = call
+				case nil:
+					if stopC == nil && !call.Common().IsInvoke() {
+						stopC = call
+					}
+				}
+			}
+			if writeC == nil {
+				continue
+			}
+			okW = stopC != nil && instrDominates(stopC.(ssa.Instruction), writeC.(ssa.Instruction))
+			whyW = "the file is written before (or without) the recording being finished: the track is not closed and added yet"
+			if okW {
+				for _, r := range allReturns(af) {
+					if len(r.Results) == 1 && retVal(r, 0) != writeC.Value() && !isNilConst(retVal(r, 0)) {
+						continue
+					}
+					if len(r.Results) == 1 && isNilConst(retVal(r, 0)) && instrDominates(writeC.(ssa.Instruction), r) {
+						okW, whyW = false, "the error of writing the file is not returned by the stop function"
+					}
+				}
+			}
+		}
+		c.Check(okW, "C13.5", "RecordTo: stop finishes the recording, then writes the file and reports its error", p.Pos(rt.Pos()), "inner stop dominates WriteFile; WriteFile's result is returned", whyW)
+	}
 }
